@@ -277,6 +277,16 @@ func run(r *report.Report) {
 	st17 := explore.Explore(explore.Config{Harness: "C17.hist", Params: fmt.Sprintf(`{"Depth":%d,"Faults":true,"Stops":true}`, d17), Bound: 0, Workers: report.Workers(), Deadline: r.Deadline(), OnlyClauses: []string{"commands-fifo"}})
 	r.AddExploration("service-command-fifo", "history", fmt.Sprintf("the C17 service harness (all histories of depth %d incl. failures and Stop/Start) with only the commands-fifo clause", d17), st17,
 		"the command packets the broker sees are a subsequence of the commands in issue order; non-trivial = fault/stop events", "fault", "stopped", "restarted")
+	// end to end: the real client library on both sides of the real broker, connections cut and resumed
+	de := 5
+	if th {
+		de = 7
+	}
+	ste := explore.Explore(explore.Config{Harness: "E2E.hist", Params: fmt.Sprintf(`{"Depth":%d,"QOS":[1,2],"Faults":true}`, de), Bound: 0, Workers: report.Workers(), Deadline: r.Deadline(), OnlyClauses: []string{"per-publisher-order", "setup"}})
+	r.AddExploration("end-to-end", "history", fmt.Sprintf("real client library (publisher, subscriber) <-> real broker over codec pipes: all histories of depth %d over {publish QoS 1/2, drop / write failure / broker write failure on either connection, reconnect with the same session}, then both sides reconnect", de), ste,
+		"at the subscribing application's callback: per QoS level first arrivals in publishing order (the harness' other clauses - QoS 2 exactly once, nothing lost, futures resolve - are reported by C10 and C09, which run it too); non-trivial = histories with a publish / with a fault", "published", "fault")
+	ste = explore.Explore(explore.Config{Harness: "E2E.hist", Params: fmt.Sprintf(`{"Depth":%d,"QOS":[1,2],"Window":1}`, de-2), Bound: 1, Workers: report.Workers(), Deadline: r.Deadline(), OnlyClauses: []string{"per-publisher-order", "setup"}})
+	r.AddExploration("end-to-end-reordered", "history", fmt.Sprintf("the same closed system (broker window 1, drops only), depth %d, with one scheduling deviation placed everywhere", de-2), ste, "as above", "published", "fault")
 	for _, cf := range cfgs {
 		st := explore.Explore(explore.Config{Harness: "C15.order", Params: mk(cf.p), Bound: cf.bound, Workers: report.Workers(), Deadline: r.Deadline()})
 		mode := "schedule"
